@@ -15,6 +15,7 @@ import ReqVerif.Model.Cache
 import ReqVerif.Model.SolutionText
 import ReqVerif.Model.BazelLoader
 import ReqVerif.Model.Patch
+import ReqVerif.Model.Vfs
 import ReqVerif.Generated
 /-!
 rvdriver: line protocol between the Python harness and the executable models.
@@ -372,6 +373,48 @@ def opSkeleton (j : Json) : Json :=
                 ("sites", jsonStrs sites),
                 ("all_exits_held", Json.arr ((PT.outcomes st []).map fun p => jsonStrs (p.2.map nm)).toArray)]
 
+/-! ### virtual file system and setup() harvest (C12) -/
+
+def opVfs (j : Json) : Json :=
+  let kind := match jStr j "kind" with | "tar" => VFS.Kind.tar | "zip" => VFS.Kind.zip | _ => VFS.Kind.dir
+  let a : VFS.Archive := { kind := kind, root := jChars j "root",
+                           files := (jArr j "files").map (fun x => (jChars x "name", jNat x "content")),
+                           dirs := (jStrs j "dirs").map String.toList }
+  let ops : List VFS.Op := (jArr j "ops").map fun x =>
+    match jStr x "op" with
+    | "chdir" => VFS.Op.chdir (jChars x "p")
+    | "exists" => VFS.Op.exists_ (jChars x "p")
+    | "rename" => VFS.Op.rename (jChars x "p") (jChars x "q")
+    | _ => VFS.Op.read (jChars x "p")
+  let obs := VFS.run a { cwd := jChars j "cwd" } ops
+  Json.arr (obs.map fun o => match o with
+    | .ok => Json.str "ok"
+    | .err => Json.str "err"
+    | .bool b => Json.bool b
+    | .content (some c) => Json.num (JsonNumber.fromNat c)
+    | .content none => Json.str "oserror").toArray
+
+def parseReqsArg (j : Json) (k : String) : VFS.ReqsArg :=
+  match (jObj j k).getStr? with
+  | .ok s => .one s.toList
+  | .error _ => .many ((jStrs j k).map String.toList)
+
+def opHarvest (j : Json) : Json :=
+  let kw : VFS.Kwargs := { name := (jOptStr j "name").map String.toList, version := (jOptStr j "version").map String.toList,
+                           requires := parseReqsArg j "requires",
+                           extras := (jArr j "extras").map fun x => (jChars x "extra", parseReqsArg x "reqs") }
+  let cfgJ := jObj j "cfg"
+  let kw' : Option VFS.Kwargs :=
+    if cfgJ.isNull then some kw
+    else VFS.overlay kw { name := (jOptStr cfgJ "name").map String.toList, version := (jOptStr cfgJ "version").map String.toList,
+                          requires := (jOptStr cfgJ "requires").map String.toList,
+                          extras := (jArr cfgJ "extras").map fun x => (jChars x "extra", jChars x "reqs") }
+  match kw' with
+  | none => Json.mkObj [("error", "AttributeError")]
+  | some k =>
+    let h := VFS.harvest k
+    Json.mkObj [("name", optStr h.name), ("version", optStr h.version), ("reqs", jsonStrs (h.reqs.map str))]
+
 def dispatch (op : String) (j : Json) : Json :=
   match op with
   | "merge" => opMerge j
@@ -391,6 +434,8 @@ def dispatch (op : String) (j : Json) : Json :=
   | "load-solution" => opLoadSolution j
   | "load-bazel" => opLoadBazel j
   | "patch-run" => opPatchRun j
+  | "vfs" => opVfs j
+  | "harvest" => opHarvest j
   | "skeleton" => opSkeleton j
   | "scan-page" => opScanPage j
   | "requires-python" => opRequiresPython j
@@ -400,6 +445,11 @@ def dispatch (op : String) (j : Json) : Json :=
   | "hello" => Json.mkObj [("protocol", (1 : Nat))]
   | _ => Json.mkObj [("bad-op", op)]
 
+/-- several requests in one line: `{"op":"batch","reqs":[...]}` -/
+def dispatchTop (op : String) (j : Json) : Json :=
+  if op == "batch" then Json.arr ((jArr j "reqs").map fun q => dispatch (jStr q "op") q).toArray
+  else dispatch op j
+
 end Drv
 
 partial def loop (h : IO.FS.Stream) (out : IO.FS.Stream) : IO Unit := do
@@ -407,7 +457,7 @@ partial def loop (h : IO.FS.Stream) (out : IO.FS.Stream) : IO Unit := do
   if line.isEmpty then return ()
   match Json.parse line with
   | .error e => out.putStrLn (Json.mkObj [("bad-json", e)]).compress
-  | .ok j => out.putStrLn (Drv.dispatch (Drv.jStr j "op") j).compress
+  | .ok j => out.putStrLn (Drv.dispatchTop (Drv.jStr j "op") j).compress
   out.flush
   loop h out
 
